@@ -216,7 +216,10 @@ theorem filter_predicates (pl : Bytes) (ts : List Tok) :
   ⟨applyMask_map _ _, fun _ => applyMask_map _ _, applyMask_map _ _, applyMask_map _ _, applyMask_map _ _,
    applyMask_map _ _, applyMask_map _ _, applyMask_map _ _⟩
 
-/-- `Attenuate` is all or nothing: on any failure the bundle is what it was — the WHOLE token list,
+/-- `Attenuate` is all or nothing (the model defines it where the text printed for a new token reads
+back as the macaroon stored for it, `Bundle.readsBack`, and fails closed elsewhere — e.g. on a caveat
+whose resource set is not in canonical order, a value with no Go counterpart): on any failure the bundle
+is what it was — the WHOLE token list,
 and a `Tok.verified` carries its verified caveat set, so the verified sets (what `Validate`,
 `AllowsAccess`, `IsForOrg` look at) are covered as well as the printed text
 (`failed_attenuate_changes_nothing` spells it out); on success every
@@ -233,7 +236,7 @@ theorem attenuate_all_or_nothing (b : Bundle) (items : List (AddItem Bytes)) :
     (∀ m s' m' added, Bundle.attMac items m = some (s', m', added) →
       ∃ c bytes, (Concrete.encode m).2.bind Concrete.decode = some c ∧ (add c items).2 = none ∧
         Concrete.encode (add c items).1 = (m', some bytes) ∧ s' = macString bytes ∧
-        added = (add c items).1.cavs.drop c.cavs.length) :=
+        added = (add c items).1.cavs.drop c.cavs.length ∧ Concrete.decode bytes = some m') :=
   ⟨attenuate_err b items, attenuate_ok b items, attTok_kind items, attTok_verified items, attMac_spec items⟩
 
 /-- **a failed `Attenuate` changes nothing**, whichever token made it fail and wherever that token
@@ -390,6 +393,44 @@ theorem clone_independent (b : Bundle) :
     (∀ t ∈ b.clone.ts, t.isVerified = false ∧ t.isFailed = false) ∧
     b.clone.header = Header.schemeFlyV1 ++ ' ' :: Header.joinWith ',' ((Header.parts b.header).map Header.trim) :=
   ⟨rfl, rfl, fun t ht => parseToks_fresh _ t ht, headerOf_parseToks _⟩
+
+/-- **clone_faithful.**  `Clone` (print, re-parse) yields the same tokens in the same order, each as it
+was before verification, whenever printing and re-parsing can be faithful at all: every token is what
+re-parsing its own text gives (`Stable`: true of every parsed token, of what `Verify` leaves, of what
+`Attenuate`/`Discharge` mint), no token text contains white space or a comma (true of every macaroon
+token: label, `_`, base64), and the bundle does not print as the empty string.  The two examples after
+it are the boundary: an empty bundle, and a first token that starts with a scheme word. -/
+theorem clone_faithful (b : Bundle) (hst : ∀ t ∈ b.ts, Stable t) (hsp : ∀ t ∈ b.ts, Header.NoSpace t.str)
+    (hc : ∀ t ∈ b.ts, ',' ∉ t.str) (hne : tokString b.ts ≠ []) :
+    b.clone.permLoc = b.permLoc ∧ b.clone.ts = b.ts.map Tok.unverify :=
+  Lemmas.BundleL.clone_faithful b hst hsp hc hne
+
+/-- every freshly parsed token is stable -/
+theorem parsed_tokens_stable (hdr : Str) : ∀ t ∈ parseToks hdr, Stable t := stable_parsed hdr
+
+/-- boundary 1: the clone of an EMPTY bundle holds one token, the empty non-macaroon (`Header()` of no
+tokens is the empty string, and parsing the empty string gives one empty part) -/
+theorem clone_of_empty_bundle (pl : Bytes) :
+    ((⟨pl, []⟩ : Bundle).clone.ts.map Tok.str = [[]]) ∧ ((⟨pl, []⟩ : Bundle).clone.ts.map Tok.kind = ['N']) := by
+  have h : (parseToks (headerOf [])).map Tok.str = [[]] ∧ (parseToks (headerOf [])).map Tok.kind = ['N'] := by decide
+  exact h
+
+/-- boundary 2: a first token that starts with a scheme word and a space loses the word: the bundle
+`[Bearer x]` prints as `FlyV1 Bearer x`, which re-parses as `[x]` -/
+theorem clone_strips_leading_scheme_word (pl : Bytes) :
+    (⟨pl, [.nonMac "Bearer x".toList]⟩ : Bundle).clone.ts.map Tok.str = ["x".toList] := by
+  have h : (parseToks (headerOf [.nonMac "Bearer x".toList])).map Tok.str = ["x".toList] := by decide
+  exact h
+
+/-- **discharge_then_none_undischarged.**  After a successful `Discharge(loc, …)`, for a third-party
+location other than the bundle's own permission location, no ticket of `loc` is left undischarged:
+`UndischargedTicketsForThirdParty(loc)` is empty and a second `Discharge(loc, …)` has nothing to do -/
+theorem discharge_then_none_undischarged (b : Bundle) (loc ka : Bytes) (cb : Bundle.Discharger) (rnds : List Bytes)
+    (hloc : loc ≠ b.permLoc) (hok : (b.discharge loc ka cb rnds).2 = false) :
+    (b.discharge loc ka cb rnds).1.undischargedTicketsFor loc = [] ∧
+    ∀ ka' cb' rnds', (b.discharge loc ka cb rnds).1.discharge loc ka' cb' rnds' = ((b.discharge loc ka cb rnds).1, false) := by
+  have h := Lemmas.BundleL.discharge_then_none_undischarged b loc ka cb rnds hloc hok
+  exact ⟨h, fun ka' cb' rnds' => discharge_nothing_to_do _ loc ka' cb' rnds' h⟩
 
 /-! ### flyio/bundle.go -/
 
@@ -563,6 +604,11 @@ end Macaroon.Props.C13
 #print axioms Macaroon.Props.C13.discharge_ticket_failures
 #print axioms Macaroon.Props.C13.f6_discharge_violates_contract
 #print axioms Macaroon.Props.C13.clone_independent
+#print axioms Macaroon.Props.C13.clone_faithful
+#print axioms Macaroon.Props.C13.parsed_tokens_stable
+#print axioms Macaroon.Props.C13.clone_of_empty_bundle
+#print axioms Macaroon.Props.C13.clone_strips_leading_scheme_word
+#print axioms Macaroon.Props.C13.discharge_then_none_undischarged
 #print axioms Macaroon.Props.C13.flyio_locations_match
 #print axioms Macaroon.Props.C13.flyio_parse
 #print axioms Macaroon.Props.C13.flyio_location_predicates
